@@ -42,7 +42,7 @@ def histories(draw):
     steps = []
     for _ in range(draw(st.integers(2, 14))):
         kind = draw(st.sampled_from(["build", "build", "build", "backward", "backward", "backward", "retain",
-                                     "zero_tensor", "zero_module", "zero_optim"]))
+                                     "zero_tensor", "zero_module", "zero_optim", "overflow"]))
         if kind == "build":
             if draw(st.booleans()):
                 steps.append({"k": "build", "op": draw(st.sampled_from(UN)), "a": draw(st.integers(0, 30)),
@@ -58,6 +58,8 @@ def histories(draw):
             steps.append({"k": "retain", "n": draw(st.integers(0, 30))})
         elif kind == "zero_tensor":
             steps.append({"k": "zero_tensor", "n": draw(st.integers(0, 2))})
+        elif kind == "overflow":
+            steps.append({"k": "overflow", "n": draw(st.integers(0, 2))})
         else:
             steps.append({"k": kind})
     return {"shape": shape, "leaves": leaves, "frozen": frozen, "steps": steps}
@@ -177,11 +179,21 @@ def check_history(c, rec):
         t = Tensor(leaf_arr[i].copy(), requires_grad=(i != frozen))
         leaves.append(nn.Parameter(t) if i < 2 else t)
 
+    class Inner(nn.Module):
+        def __init__(self, p):
+            super().__init__()
+            self.p = p
+
+    class Mid(nn.Module):
+        def __init__(self, p):
+            super().__init__()
+            self.deep = Inner(p)
+
     class Holder(nn.Module):
         def __init__(self):
             super().__init__()
             self.p0 = leaves[0]
-            self.p1 = leaves[1]
+            self.branch = Mid(leaves[1])        # the second parameter sits two levels down
 
     module = Holder()
     optim = sg.optim.SGD([leaves[1], leaves[2]], lr=0.1)
@@ -200,6 +212,8 @@ def check_history(c, rec):
         for i in range(3):
             gr = leaves[i].grad
             e = expected[i]
+            if isinstance(e, str):          # "nonfinite": an overflowed gradient, nothing to compare until the next reset
+                continue
             if e is None:
                 if gr is not None:
                     raise Violation("leaf_grad_unexpected", f"step {step_no} ({what}): leaf {i} has a gradient "
@@ -265,6 +279,8 @@ def check_history(c, rec):
                 raise Violation("backward_raised", f"step {si}: backward on node {n} raised {type(e).__name__}: {e}; "
                                                    f"history={c['steps'][:si + 1]}")
             for i in range(3):
+                if i in rset and isinstance(expected[i], str):
+                    continue
                 if i in rset:
                     if since_reset_calls[i] >= 1:
                         second_special = (n < 3) or (n in was_root) or any(
@@ -287,6 +303,15 @@ def check_history(c, rec):
                 tens[n].retain_grad()
                 retained.add(n)
                 tags.add("retain_grad")
+        elif k == "overflow":
+            # a legitimately infinite gradient (finite data, overflow in the chain rule): (leaf * 1e200) * 1e200
+            i = st_["n"]
+            if not leaves[i].requires_grad:
+                continue
+            with np.errstate(all="ignore"):
+                ((leaves[i] * 1e200) * 1e200).sum().backward()
+            expected[i] = "nonfinite"
+            tags.add("nonfinite_gradient_before_reset")
         elif k == "zero_tensor":
             i = st_["n"]
             leaves[i].zero_()
